@@ -156,8 +156,8 @@ func migrateFile(path string, dryRun bool) (int, error) {
 	return count, nil
 }
 
-// legacyMarkerLines returns the (1-based) numbers of the lines on which a line comment in the legacy
-// marker format starts, as seen by the Go scanner.
+// legacyMarkerLines returns the (1-based) numbers of the lines that begin (after indentation) with a
+// line comment in the legacy marker format, as seen by the Go scanner.
 func legacyMarkerLines(src []byte) map[int]bool {
 	fset := token.NewFileSet()
 	file := fset.AddFile("", fset.Base(), len(src))
@@ -174,8 +174,15 @@ func legacyMarkerLines(src []byte) map[int]bool {
 			break
 		}
 
-		if tok == token.COMMENT && strings.HasPrefix(lit, oldMarkerPrefix) {
-			lines[fset.Position(pos).Line] = true
+		if tok != token.COMMENT || !strings.HasPrefix(lit, oldMarkerPrefix) {
+			continue
+		}
+
+		// The comment must be the first thing on its line: a line that starts inside a block
+		// comment or raw string may be followed by a trailing comment on the same line.
+		p := fset.Position(pos)
+		if strings.TrimLeft(string(src[p.Offset-(p.Column-1):p.Offset]), " \t") == "" {
+			lines[p.Line] = true
 		}
 	}
 
